@@ -465,3 +465,44 @@ def declares_grp(ex, st, ref, entry):
                                     ex.H(st, 'f.ChildEntry.kind')[c] == z3.StringVal('GRP'),
                                     Val.VStr(ex.H(st, 'f.ChildEntry.name')[c]) == arr[0],
                                     Val.VRef(ex.H(st, 'f.ChildEntry.ref')[c]) == arr[1])), BOOL)
+
+
+@specfunc('nonempty')
+def nonempty(ex, st, x):
+    """truthiness of a None-able list"""
+    t = ex.truth(st, x)
+    return SV(t if not isinstance(t, bool) else z3.BoolVal(t), BOOL)
+
+
+@specfunc('tuple_len')
+def tuple_len(ex, st, x):
+    if x.is_py and isinstance(x.py, tuple):
+        return mk(len(x.py))
+    t = ex.term(x, 'R') if x.ty.kind != 'any' else Val.addr(x.term)
+    return SV(ex.H(st, 'Ll')[t], INT)
+
+
+@specfunc('pct')
+def pct(ex, st, template, *args):
+    """'template' % (args...) as the engine models it"""
+    return ex.format_uf(st, ('%', template.py), list(args))
+
+
+@specfunc('re_escape')
+def re_escape(ex, st, s):
+    return SV(ex.uf('re_escape', StrS, StrS)(ex.term(s, 'S')), STR)
+
+
+@specfunc('er7_of')
+def er7_of(ex, st, el, ec, trailing):
+    f = ex.uf('er7_of', IntS, IntS, BoolS, StrS)
+    return SV(f(ex.term(el, 'R'), ex.term(ec, 'R'), ex.term(trailing, 'B')), STR)
+
+
+@specfunc('msg_ec')
+def msg_ec(ex, st, m):
+    f = ex.uf('msg_ec', IntS, IntS)
+    t = f(ex.term(m, 'R'))
+    if getattr(ex, 'spec_facts', None) is not None:
+        ex.spec_facts.extend(ex.type_facts(st, t, DictT(STR)))
+    return SV(t, DictT(STR))
